@@ -65,6 +65,11 @@ def build_concrete(build, values):
         ins, outs = build(s)
         for n, w in ins.items():
             w.put(values[n])
+        inw = set(id(w) for w in ins.values())
+        for w in symsim.all_wires(s):
+            k = 'pre:' + w.getFullPath()
+            if id(w) not in inw and k in values:
+                w.value = values[k] & ((1 << w.getWidth()) - 1)      # whatever an earlier evaluation left on the wire
         s.getSimulator()
     return {n: w.get() for n, w in outs.items()}
 
@@ -88,6 +93,18 @@ def comb_task(p, cfg, rec):
     if cfg.get('assume'):
         p.assume(cfg['assume'](V))
     spec = cfg['spec'](V)
+    # every other wire starts with arbitrary content: a stateless block must overwrite all of its outputs on every
+    # evaluation (values left by an earlier evaluation must not show through)
+    P = {}
+    inw = set(id(w) for w in ins.values())
+    for w in symsim.all_wires(s):
+        if id(w) in inw or w.name == 'clk':
+            continue
+        x, xv = core.fresh('pre_%d' % len(P), w.getWidth())
+        w.value = x
+        P['pre:' + w.getFullPath()] = xv
+    VP = dict(V)
+    VP.update(P)
 
     def mk_replay(oname, rw, exc_mode=False):
         def replay(values):
@@ -108,7 +125,7 @@ def comb_task(p, cfg, rec):
             s.getSimulator()
     except SymbolicPathError as e:
         # the real block raises for some input inside the stated domain
-        p.prove('simulates-without-exception', z3.And(*e.pc) if e.pc else z3.BoolVal(True), inputs=V,
+        p.prove('simulates-without-exception', z3.And(*e.pc) if e.pc else z3.BoolVal(True), inputs=VP,
                 replay=mk_replay(None, 0, True), quantities=cfg.get('quantities', lambda V: {})(V))
         return
     p.res['states'] += 1
@@ -127,7 +144,7 @@ def comb_task(p, cfg, rec):
         if not inrange:
             viol = z3.Or(viol, core.as_z3_bool(v < 0), core.as_z3_bool(v >= (1 << rw)))
         q = cfg.get('quantities', lambda V: {})(V)
-        p.prove(oname, viol, inputs=V, replay=mk_replay(oname, rw), quantities=q,
+        p.prove(oname, viol, inputs=VP, replay=mk_replay(oname, rw), quantities=q,
                 canary=(got != z3.ZeroExt(1, o ^ 1)))
         p.res['transitions'] += 1
     p.validate_terms(terms, V, lambda values: build_concrete(build, values), n=2)
